@@ -1,12 +1,15 @@
 #!/usr/bin/env python3
 """Operation generator for engine `modes` (C12).  All randomness from --seed.
 
-Histories are structured: a terminal (directly, adopted by a toplevel instance, or built by one), the
-terminal's replies to the start-up queries (prompt, late or absent; consistent with the VT's initial state
+Histories are structured: a terminal (directly, adopted by a toplevel instance, or built by one; with or
+without an output buffer of a few or many bytes), the terminal's replies to the start-up queries (prompt,
+late - after the program has already set controls - or absent; consistent with the VT's initial state
 named on the `new` line), then control settings (valid, redundant, repeated, a labelled minority invalid),
-pens, text, pause/resume cycles, and an ending in teardown and/or destruction.  Histories that contain a
-trigger of a finding already recorded for the unrepaired tree are placed after the others, so that the
-framework's cap on examined failing histories never hides a new failure behind known ones.
+pens (palette colours with and without RGB8 refinements, often a small variation of the previous pen),
+text, pause/resume cycles, other holders taking and dropping references to the terminal, and an ending in
+teardown and/or destruction.  Histories that contain a trigger of a finding already recorded for the
+unrepaired tree are placed after the others, so that the framework's cap on examined failing histories never
+hides a new failure behind known ones.
 """
 import argparse, random, json, itertools, collections
 
@@ -25,6 +28,8 @@ ATTR_VALUES = {
     "af": [-1, 0, 1, 5, 9, 10], "bl": [0, 1], "sp": [0, 2, 3, 0, 2, 3, 0, 2, 3, 1],
 }
 ATTRS = list(ATTR_VALUES)
+RGBS = ["112233", "000000", "ffffff", "ff8000", "112234"]
+COLOUR_IDX = [-1, 1, 5, 9, 16, 200, 255]
 TEXTS = ["6869", "78", "c3a9", "48656c6c6f20776f726c64", "20", "efbc91"]
 
 
@@ -32,25 +37,61 @@ def hexs(s):
     return s.encode().hex()
 
 
-def pen():
+def colour(n):
+    """A palette index, in 2 of 5 cases with an RGB8 refinement."""
+    if rng.random() < 0.4:
+        stat["pen:rgb8-colour"] += 1
+        return f"{rng.choice(COLOUR_IDX)}#{rng.choice(RGBS)}"
+    return str(rng.choice(ATTR_VALUES[n]))
+
+
+def value(n):
+    return colour(n) if n in ("fg", "bg") else str(rng.choice(ATTR_VALUES[n]))
+
+
+def pen(prev=None):
+    """A pen; with a previous pen at hand, often a variation of it in one attribute (a colour keeps its index and
+    loses, gains or changes its RGB8 refinement, or keeps the refinement and changes the index)."""
+    if prev and prev != "-" and rng.random() < 0.45:
+        fields = dict(f.split("=") for f in prev.split(","))
+        n = rng.choice(sorted(fields, key=ATTRS.index))
+        if n in ("fg", "bg"):
+            idx, _, rgb = fields[n].partition("#")
+            how = rng.random()
+            if rgb and how < 0.5:
+                fields[n] = idx                                   # same index, refinement dropped
+            elif how < 0.8:
+                fields[n] = f"{idx}#{rng.choice(RGBS)}"           # same index, refinement added / changed
+            else:
+                fields[n] = f"{rng.choice(COLOUR_IDX)}" + (f"#{rgb}" if rgb else "")
+            stat["pen:colour-variation"] += 1
+        else:
+            fields[n] = value(n)
+        if rng.random() < 0.5:                                    # only the varied attribute (for chpen), or the whole pen
+            return f"{n}={fields[n]}"
+        return ",".join(f"{k}={fields[k]}" for k in sorted(fields, key=ATTRS.index))
     k = rng.choice([0, 1, 1, 2, 2, 3, 5, 10])
     names = sorted(rng.sample(ATTRS, k), key=ATTRS.index)
     if not names:
         return "-"
-    return ",".join(f"{n}={rng.choice(ATTR_VALUES[n])}" for n in names)
+    return ",".join(f"{n}={value(n)}" for n in names)
 
 
 class Hist:
-    def __init__(self, kind):
+    def __init__(self, kind, buf):
         self.shape = rng.choice([0, 1, 2, 2, 3, 4, 5, 6])
         self.blink = 1 if (self.shape == 0 or self.shape % 2 == 1) else 0
-        self.lines = [f"new {kind} blink={self.blink} shape={self.shape}"]
+        self.lines = [f"new {kind}{f' buf={buf}' if buf else ''} blink={self.blink} shape={self.shape}"]
         self.kind = kind
         self.last = {}          # control -> last value set
-        self.explicit = set()   # controls set explicitly (for the late-reply trigger)
-        self.pen_nondefault = False
         self.trigger = set()
         self.pending = self.replies()
+        self.prevpen = None
+        self.extra = 0          # references taken by other holders
+        self.owner = True
+        self.nosetup = kind != "term" and rng.random() < 0.3     # the program sets the modes itself, never through setup
+        if self.nosetup:
+            stat["toplevel:without-setup"] += 1
 
     def replies(self):
         r = [f"reply mode 25 1", f"reply mode 12 {1 if self.blink else 2}", f"reply mode 69 {rng.choice([1, 1, 2, 0])}",
@@ -67,13 +108,21 @@ class Hist:
         for _ in range(n):
             line = self.pending.pop(0)
             p = line.split()
-            if p[1] == "mode" and p[2] == "25" and p[3] == "1" and "cursorvis" in self.explicit and self.last.get("cursorvis") == 0:
-                self.trigger.add("late_reply")
-            if p[1] == "mode" and p[2] == "12" and "cursorblink" in self.explicit and (p[3] == "1") != (self.last.get("cursorblink", 0) != 0) and p[3] == "1":
-                self.trigger.add("late_reply")
-            if p[1] == "shape" and "cursorshape" in self.explicit:
-                self.trigger.add("late_reply")
+            what = {"25": "cursorvis", "12": "cursorblink"}.get(p[2]) if p[1] == "mode" else ("cursorshape" if p[1] == "shape" else None)
+            if what in self.last:
+                stat["reply:after-the-control-was-set"] += 1
+            if p[1] == "sgr" and p[3] == "1" and self.last.get("xterm.cap_rgb8") == 0:
+                self.trigger.add("forced_rgb8")
             self.add(line)
+
+    def early(self):
+        """Controls set straight after construction, before the terminal has answered the start-up queries."""
+        for _ in range(rng.randint(1, 4)):
+            c = rng.choice(["cursorshape", "cursorshape", "cursorblink", "cursorvis", "mouse", "altscreen"])
+            v = rng.choice([1, 2, 3]) if c in ("cursorshape", "mouse") else rng.choice([0, 1])
+            self.last[c] = v
+            self.add(f"ctl {c} {v}")
+            stat["ctl:before-replies"] += 1
 
     def ctl(self):
         r = rng.random()
@@ -82,7 +131,9 @@ class Hist:
             stat["ctl:not-a-control"] += 1
             return
         if r < 0.07:
-            self.add(f"ctl xterm.cap_rgb8 {rng.choice([0, 1, 5])}")
+            v = rng.choice([0, 1, 5])
+            self.last["xterm.cap_rgb8"] = v
+            self.add(f"ctl xterm.cap_rgb8 {v}")
             return
         c = rng.choice(["altscreen", "cursorvis", "mouse", "mouse", "cursorblink", "cursorshape", "keypad_app"])
         if c in self.last and rng.random() < 0.25:
@@ -97,7 +148,6 @@ class Hist:
             v = rng.choice([0, 1])
         name = c if rng.random() < 0.8 else f"#{NUM[c]}"
         self.last[c] = v
-        self.explicit.add(c)
         if c == "keypad_app" and v != 0:
             self.trigger.add("keypad_shadow")
         self.add(f"ctl {name} {v}")
@@ -107,12 +157,11 @@ class Hist:
         if r < 0.45:
             self.ctl()
         elif r < 0.60:
-            p = pen()
+            p = pen(self.prevpen)
+            self.prevpen = p
             self.add(f"{rng.choice(['setpen', 'setpen', 'chpen'])} {p}")
             if any(f in ("u=2", "u=3", "sp=1") for f in p.split(",")):
                 stat["contract:pen-value-without-exact-encoding"] += 1
-            if any(not f.endswith(("=0", "=-1")) for f in p.split(",")) and p != "-":
-                self.pen_nondefault = True
         elif r < 0.70:
             self.add(f"print {rng.choice(TEXTS)}")
         elif r < 0.80:
@@ -126,8 +175,6 @@ class Hist:
                 stat["contract:op-while-paused"] += 1
             if x < 0.93:
                 self.add("resume")
-                if self.pen_nondefault:
-                    self.trigger.add("pause_pen")
             else:
                 self.ended_paused = True
         elif r < 0.84:
@@ -143,18 +190,22 @@ class Hist:
                 self.ctl()
         elif r < 0.94:
             self.add("resume"); stat["contract:resume-without-pause"] += 1
-        elif self.kind != "term" and r < 0.98:
+        elif r < 0.96:
+            if self.extra and rng.random() < 0.3:
+                self.add("termunref"); self.extra -= 1
+            else:
+                self.add("termref"); self.extra += 1
+        elif self.kind != "term" and r < 0.99:
             self.tick()
         else:
             self.ctl()
 
     def tick(self):
-        nosetup = rng.random() < 0.15
+        nosetup = self.nosetup or rng.random() < 0.15
         if not nosetup and not getattr(self, "done_setup", False):
             self.done_setup = True
             self.trigger.add("keypad_shadow")
             self.last.update(cursorvis=0, mouse=2, keypad_app=1)
-            self.explicit.update(["cursorvis", "mouse", "keypad_app"])
         self.add("tick nosetup" if nosetup else "tick")
 
     def finish(self):
@@ -173,22 +224,40 @@ class Hist:
                 end += [rng.choice([f"ctl mouse {rng.choice([1, 2])}", "reply mode 12 1", "reply mode 25 1"]), "unref"]; stat["contract:op-after-teardown"] += 1
         else:
             end = ["pause", "teardown", "unref"]
+        if self.extra and "unref" in end:
+            stat["end:owner-destroyed-while-the-terminal-is-shared"] += 1
+            k = end.index("unref")
+            if rng.random() < 0.2:     # the other holders let go first
+                end = end[:k] + ["termunref"] * self.extra + end[k:]
+            else:
+                end = end[:k + 1] + ["termunref"] * self.extra + end[k + 1:]
         for e in end:
             self.add(e)
         stat["end:" + "+".join(x.split()[0] for x in end)] += 1
 
 
 def history():
-    kind = rng.choice(["term"] * 7 + ["tickit"] * 2 + ["tickitb"])
-    h = Hist(kind)
+    kind = rng.choice(["term"] * 6 + ["tickit"] * 2 + ["tickitb"] * 2)
+    buf = rng.choice([0, 0, 0, 8, 16, 64, 4096]) if kind != "tickitb" else rng.choice([0, 0, 16, 64])
+    h = Hist(kind, buf)
     stat["kind:" + kind] += 1
+    if buf or kind == "tickitb":
+        stat["output:buffered"] += 1
+    if rng.random() < 0.2:
+        v = rng.choice([1, 1, 1, 0])
+        h.last["xterm.cap_rgb8"] = v
+        h.add(f"ctl xterm.cap_rgb8 {v}"); stat["rgb8:forced-at-start"] += 1
     mode = rng.random()
-    if mode < 0.6:
+    if mode < 0.55:
         h.deliver(); stat["replies:prompt"] += 1
-    elif mode < 0.75:
+    elif mode < 0.67:
         h.pending = []; stat["replies:none"] += 1
     else:
         stat["replies:late"] += 1
+        if rng.random() < 0.7:
+            h.early()
+            if rng.random() < 0.6:
+                h.deliver()
     if kind != "term":
         if rng.random() < 0.4:
             h.add(f"usealt {rng.choice([0, 0, 1, 2, 3])}")
@@ -203,19 +272,49 @@ def history():
 
 
 def exhaustive():
-    """Every history of at most `depth` operations over a small alphabet, each ending in destruction."""
+    """Every history of at most `depth` operations over small alphabets, each ending in destruction."""
     alpha = ["ctl altscreen 1", "ctl altscreen 0", "ctl cursorvis 0", "ctl cursorvis 1", "ctl mouse 2", "ctl mouse 0",
              "setpen b=1", "pause", "resume", "teardown", "reply mode 25 1", "ctl keypad_app 1"]
     depth = 4
     clean, dirty = [], []
     for n in range(depth + 1):
         for seq in itertools.product(alpha, repeat=n):
-            (dirty if ("ctl keypad_app 1" in seq or "reply mode 25 1" in seq or ("setpen b=1" in seq and "resume" in seq)) else clean).append(
-                ["new term blink=0 shape=2"] + list(seq) + ["unref"])
+            (dirty if "ctl keypad_app 1" in seq else clean).append(["new term blink=0 shape=2"] + list(seq) + ["unref"])
+    families = {"mode controls, pen, pause/resume/teardown, a reply (<= 4 of 12)": len(clean) + len(dirty)}
+    # colours with RGB8 refinements across pause/resume, on a terminal that has (or is told to have) 24-bit colours
+    rgb = ["ctl xterm.cap_rgb8 1", "setpen fg=5#112233", "setpen fg=5", "chpen fg=5#445566", "chpen bg=9#ff8000", "pause", "resume", "setpen -"]
+    for n in range(1, 5):
+        for seq in itertools.product(rgb, repeat=n):
+            clean.append(["new term blink=0 shape=2", "reply sgr 1 0"] + list(seq) + ["print 78", "unref"])
+    families["RGB8 colours, pause/resume (<= 4 of 8)"] = sum(len(rgb) ** n for n in range(1, 5))
+    # controls set before the terminal's replies arrive
+    early = ["ctl cursorshape 2", "ctl cursorshape 1", "ctl cursorblink 1", "ctl cursorblink 0", "ctl cursorvis 0", "reply shape 4", "reply shape 1",
+             "reply mode 12 1", "reply mode 12 2", "reply mode 25 1"]
+    for n in range(1, 5):
+        for seq in itertools.product(early, repeat=n):
+            clean.append(["new term blink=1 shape=1"] + list(seq) + ["unref"])
+    families["cursor controls and late replies (<= 4 of 10)"] = sum(len(early) ** n for n in range(1, 5))
+    # a small output buffer
+    buf = ["ctl altscreen 1", "ctl mouse 2", "ctl cursorvis 0", "setpen b=1,fg=200", "print 48656c6c6f", "pause", "resume", "teardown", "flush"]
+    for size in (8, 64):
+        for n in range(1, 5):
+            for seq in itertools.product(buf, repeat=n):
+                clean.append([f"new term buf={size} blink=0 shape=2"] + list(seq) + ["unref"])
+    families["output buffer of 8 / 64 bytes (<= 4 of 9)"] = 2 * sum(len(buf) ** n for n in range(1, 5))
+    # a terminal shared with another holder; `unref` may come anywhere
+    shared = ["tick nosetup", "ctl altscreen 1", "ctl mouse 1", "setpen rv=1", "termref", "termunref", "unref", "pause", "resume"]
+    for kind in ("term", "tickit", "tickitb"):
+        for n in range(1, 5):
+            for seq in itertools.product(shared, repeat=n):
+                if kind == "term" and "tick nosetup" in seq:
+                    continue
+                clean.append([f"new {kind} blink=1 shape=1"] + list(seq) + ["unref", "termunref", "termunref"])
+    families["shared terminal, three kinds (<= 4 of 9)"] = 3 * sum(len(shared) ** n for n in range(1, 5))
     for kind in ("tickit", "tickitb"):
-        for seq in itertools.product(["tick", "usealt 0", "pause", "resume", "ctl mouse 0", "ctl altscreen 0", "teardown"], repeat=3):
-            dirty.append([f"new {kind} blink=1 shape=1"] + list(seq) + ["unref"])
-    return clean + dirty, {"exhaustive_bound": f"all histories of <= {depth} operations over {len(alpha)} operations on a terminal, and of 3 over 7 on both kinds of toplevel instance, each ending in unref",
+        for seq in itertools.product(["tick", "usealt 0", "pause", "resume", "ctl mouse 0", "ctl altscreen 0", "teardown", "termref"], repeat=3):
+            dirty.append([f"new {kind} blink=1 shape=1"] + list(seq) + ["unref", "termunref"])
+    families["toplevel setup (3 of 8, two kinds)"] = 2 * 8 ** 3
+    return clean + dirty, {"exhaustive_bound": "all histories over small alphabets, each ending in destruction: " + "; ".join(f"{k}: {v}" for k, v in families.items()),
                            "histories": len(clean) + len(dirty), "with_known_trigger": len(dirty)}
 
 
@@ -226,10 +325,28 @@ if a.tier == "exhaustive":
     info["ops"] = len(lines)
     print(json.dumps(info))
 else:
-    N = 400 if a.tier == "quick" else 3000
+    N = 600 if a.tier == "quick" else 3000
     hs = [history() for _ in range(N)]
-    clean = [h for h in hs if not h.trigger]
-    dirty = [h for h in hs if h.trigger]
+    def richness(h):
+        """How many of the life-cycle situations a history combines (the richest first, so that the framework's cap on
+        examined failing histories is spent on them): a resume after a colour with an RGB8 refinement on a terminal
+        with 24-bit colours, a buffered output with a pause, a shared terminal, a reply after the control was set."""
+        ls = h.lines
+        rgbpen = next((i for i, l in enumerate(ls) if l.startswith(("setpen", "chpen")) and "#" in l), None)
+        capon = any(l.startswith("reply sgr") and l.endswith(" 1") or l.startswith("ctl xterm.cap_rgb8 1") for l in ls)
+        score = 0
+        if rgbpen is not None and capon and "resume" in ls[rgbpen:]:
+            score += 2
+        if ("buf=" in ls[0] or ls[0].startswith("new tickitb")) and "pause" in ls:
+            score += 1
+        if "termref" in ls:
+            score += 1
+        firstreply = next((i for i, l in enumerate(ls) if l.startswith("reply")), len(ls))
+        if any(l.startswith("ctl cursor") for l in ls[1:firstreply]) and firstreply < len(ls):
+            score += 1
+        return -score
+    clean = sorted([h for h in hs if not h.trigger], key=richness)
+    dirty = sorted([h for h in hs if h.trigger], key=richness)
     lines = [l for h in clean + dirty for l in h.lines]
     open(a.out, "w").write("\n".join(lines) + "\n")
     trig = collections.Counter(t for h in dirty for t in h.trigger)
